@@ -10,6 +10,7 @@ synthesize_trials equals the user-declared factor names for every design (weight
 """
 from ..common import HarnessError, pmap, stable_hash, quiet
 from ..corpus import designs
+from . import c25
 from ..designs import describe, build
 from ..xhair import Case, run_cases, replay_harness
 
@@ -144,18 +145,67 @@ def hidden_keys(sub, desc):
     except Exception:
         return 'internal-error'
     sub.case(key, nontrivial=weighted)
-    want = [n for n in _block_names(desc['block'])]
+    problem = _keys_and_tuples(sub, desc, built.block, desc['block'], out, key, 'top')
+    if problem:
+        return 'ok'
+    # operand blocks stay usable on their own after they were combined (Repeat/Merge/Nest must not edit them)
+    specs = _postorder(desc['block'])
+    if len(specs) > 1 and len(specs) == len(built.blocks):
+        for i, (blk, bs) in enumerate(zip(built.blocks[:-1], specs[:-1])):
+            try:
+                with quiet():
+                    if blk.show_errors() or not solve(compiled_clauses(blk))[0]:
+                        continue
+                    o = sp.synthesize_trials(blk, 1, sp.IterateSATGen)
+            except Exception as e:
+                sub.violation(f'operand:{key}:{i}', f'{describe(desc)}: operand block {i} ({bs["kind"]}) can no longer be '
+                              f'synthesized after it was combined: {type(e).__name__}: {e}',
+                              {'desc': desc, 'query': 'operand', 'index': i})
+                break
+            if _keys_and_tuples(sub, desc, blk, bs, o, key, f'operand{i}'):
+                break
+    return 'ok'
+
+
+def _keys_and_tuples(sub, desc, block, bs, out, key, tag):
+    import sweetpea as sp
+    want = [n for n in _block_names(bs)]
     for seq in out:
         if sorted(map(str, seq.keys())) != sorted(want) or any(not isinstance(k, str) for k in seq.keys()):
-            sub.violation(f'keys:{key}', f'{describe(desc)}: synthesize_trials returns columns {list(seq.keys())}, the '
-                          f'user-declared factors are {want}', {'desc': desc, 'query': 'keys', 'want': want})
-            break
-        tup = sp.experiments_to_tuples(built.block, [seq])
-        if tup != [[tuple(seq[n][t] for n in _design_order(desc)) for t in range(len(seq[want[0]]))]]:
-            sub.violation(f'tuples:{key}', f'{describe(desc)}: experiments_to_tuples differs from the returned sequence',
-                          {'desc': desc, 'query': 'tuples', 'want': want})
-            break
-    return 'ok'
+            sub.violation(f'keys:{key}' if tag == 'top' else f'keys:{key}:{tag}',
+                          f'{describe(desc)} [{tag}]: synthesize_trials returns columns {list(seq.keys())}, the '
+                          f'user-declared factors are {want}', {'desc': desc, 'query': 'keys', 'want': want, 'tag': tag})
+            return True
+        try:
+            tup = sp.experiments_to_tuples(block, [seq])
+            dic = sp.experiments_to_dicts(block, [seq])
+        except Exception as e:
+            sub.violation(f'tuples:{key}' if tag == 'top' else f'tuples:{key}:{tag}',
+                          f'{describe(desc)} [{tag}]: conversion raises {type(e).__name__}: {e}',
+                          {'desc': desc, 'query': 'tuples', 'want': want, 'tag': tag})
+            return True
+        T = len(seq[want[0]])
+        if tup != [[tuple(seq[n][t] for n in want) for t in range(T)]] or \
+                dic != [[{n: seq[n][t] for n in want} for t in range(T)]]:
+            sub.violation(f'tuples:{key}' if tag == 'top' else f'tuples:{key}:{tag}',
+                          f'{describe(desc)} [{tag}]: experiments_to_tuples/dicts differ from the returned sequence',
+                          {'desc': desc, 'query': 'tuples', 'want': want, 'tag': tag})
+            return True
+    return False
+
+
+def _postorder(bs):
+    """Block specs in the order designs.build_block appends the built blocks."""
+    k = bs['kind']
+    out = []
+    if k == 'repeat':
+        out += _postorder(bs['block'])
+    elif k == 'merge':
+        for b in bs['blocks']:
+            out += _postorder(b)
+    elif k == 'nest':
+        out += _postorder(bs['outer']) + _postorder(bs['inner'])
+    return out + [bs]
 
 
 def _block_names(bs):
@@ -180,15 +230,38 @@ def _design_order(desc):
 
 
 def replay(data):
-    import sweetpea as sp
     if data.get('query') == 'crosshair':
         return replay_harness(data)
-    with quiet():
-        built = build(data['desc'])
-        out = sp.synthesize_trials(built.block, 2, sp.IterateSATGen)
-    if data['query'] == 'keys':
-        return any(sorted(map(str, s.keys())) != sorted(data['want']) or any(not isinstance(k, str) for k in s) for s in out)
-    return True
+    if data.get('query') == 'continuous-weighted':
+        return _continuous_weighted_problem() is not None
+    from ..common import Sub
+    sub = Sub('C20', 'quick', 0)
+    hidden_keys(sub, data['desc'])
+    return bool(sub.violations)
+
+
+def _continuous_weighted_problem():
+    """A weighted uncrossed factor (internal hidden factor) together with a continuous factor, through the real
+    synthesize_trials with each strategy: only the declared columns come back and the conversions reproduce them."""
+    import sweetpea as sp
+    for strategy in (sp.IterateSATGen, sp.RandomGen, sp.CMSGen):
+        A = sp.Factor('A', ['a0', 'a1']); B = sp.Factor('B', ['b0', 'b1'])
+        W = sp.Factor('W', [sp.Level('w0', 2), 'w1'])
+        T = sp.ContinuousFactor('T', distribution=sp.UniformDistribution(0, 1))
+        block = sp.CrossBlock([A, W, B, T], [A, B], [])
+        with quiet():
+            out = sp.synthesize_trials(block, 2, strategy)
+        if not out:
+            return f'{strategy.__name__}: no sequences'
+        for seq in out:
+            if list(seq.keys()) != ['A', 'W', 'B', 'T'] and sorted(map(str, seq.keys())) != ['A', 'B', 'T', 'W']:
+                return f'{strategy.__name__}: columns {list(seq.keys())}'
+            n = len(seq['A'])
+            if any(len(v) != n for v in seq.values()):
+                return f'{strategy.__name__}: ragged columns'
+            if sp.experiments_to_tuples(block, [seq]) != [[tuple(seq[k][t] for k in ('A', 'W', 'B', 'T')) for t in range(n)]]:
+                return f'{strategy.__name__}: experiments_to_tuples differs from the returned sequence'
+    return None
 
 
 def run(ctx):
@@ -197,7 +270,7 @@ def run(ctx):
                       'main.synthesize_trials (returned key set)']
     ctx.bounds = {'symbolic': '1-2 experiments, 1-3 trials, unconstrained integer values, extra key or not; CSV: 2 trials, '
                               '7-value alphabet per cell', 'blocks': 'plain, with a weighted uncrossed factor (hidden '
-                              'internal factor), with a continuous factor', 'corpus': 'key set of real sequences per design'}
+                              'internal factor), with a continuous factor', 'corpus': 'key set and tuple/dict conversion of real sequences per design, also for every operand block of a Repeat/Merge/Nest after it was combined; one design with a weighted uncrossed factor and a continuous factor through IterateSATGen, RandomGen, CMSGen'}
     ctx.outside += ['more experiments/trials', 'values that are not int/str']
     ctx.stubs += ['open() inside sweetpea._internal.main replaced by an in-memory file for the CSV cases',
                   'Factor/Level __hash__ = id>>4']
@@ -205,7 +278,15 @@ def run(ctx):
     ctx.rule = 'one case per (converter, block kind); corpus: one case per descriptor, non-trivial = has weighted levels'
     ctx.explanation = ('Converters are executed symbolically on experiments with unconstrained values (one path covers all '
                        'values) and symbolic shape; CSV text is read back; hidden factors are checked on real sequences.')
-    res = pmap(ctx, hidden_keys, designs(ctx.tier, ctx.seed))
+    res = pmap(ctx, hidden_keys, designs(ctx.tier, ctx.seed) + c25.nest_designs(ctx.tier, ctx.seed))
+    ctx.case('continuous+weighted')
+    try:
+        problem = _continuous_weighted_problem()
+    except Exception as e:
+        problem = f'{type(e).__name__}: {e}'
+    if problem:
+        ctx.violation('continuous-weighted', f'CrossBlock([A, W(w0 x2), B, T continuous], [A, B]): {problem}',
+                      {'query': 'continuous-weighted'})
     ctx.extra['design_outcomes'] = {str(k): res.count(k) for k in set(res)}
     run_cases(ctx, HEADER, cases(ctx.tier), timeout=600 if ctx.tier == 'thorough' else 150, path_timeout=30,
               module_tag='c20', keyfn=lambda c, kw: f"convert:{c.info['converter']}:{c.info['block']}")
